@@ -31,6 +31,11 @@ theorem argOKB_sound (a : Arg) (h : argOKB a = true) : argOK a := by
       obtain ⟨t, o⟩ := p
       simp only [argOKB, Bool.and_eq_true, Bool.not_eq_true'] at h
       exact ⟨operandOKB_sound o h.1, by intro e; subst e; simp [isVoid] at h⟩
+  | phis incs =>
+    simp only [argOKB, Bool.and_eq_true, Bool.not_eq_true', List.all_eq_true] at h
+    refine ⟨by intro e; subst e; simp at h, fun p hp => ?_⟩
+    have := h.2 p hp
+    exact ⟨operandOKB_sound _ this.1, identOKB_sound _ this.2⟩
 
 theorem matchesB_sound : ∀ (fs : List Slot) (as : List Arg), matchesB fs as = true → Matches fs as
   | [], [], _ => .nil
@@ -56,6 +61,10 @@ theorem matchesB_sound : ∀ (fs : List Slot) (as : List Arg), matchesB fs as = 
     cases as with
     | nil => simp [matchesB] at h
     | cons a as => cases a <;> first | exact .retv _ (matchesB_sound fs as (by simpa [matchesB] using h)) | simp [matchesB] at h
+  | .phis :: fs, as, h => by
+    cases as with
+    | nil => simp [matchesB] at h
+    | cons a as => cases a <;> first | exact .phis _ (matchesB_sound fs as (by simpa [matchesB] using h)) | simp [matchesB] at h
 
 theorem instOKB_sound (i : Inst) (h : instOKB i = true) : instOK i := by
   unfold instOKB at h
@@ -102,6 +111,7 @@ theorem retypeArg_id (e : List (Ident × Ty)) (a : Arg) (h : consistentArg e a =
   | ty t => rfl
   | val o => rfl
   | lab i => rfl
+  | phis incs => rfl
   | tyval t o =>
     cases o with
     | const c => rfl
